@@ -850,6 +850,7 @@ class NonMementoFunctionHashRule(HashRule):
 
     """
 
+    name = None  # type: str
     src_fn = None  # type: Callable
     resolver = None  # type: Callable
 
@@ -878,14 +879,19 @@ class NonMementoFunctionHashRule(HashRule):
         first_level: bool,
     ):
         # noinspection PyUnresolvedReferences
+        name = obj.__module__ + ":" + obj.__qualname__
+        if "<" in obj.__qualname__:
+            # Lambdas and functions defined inside another function share their qualified name
+            # with other functions. Tell them apart by the name they are referred to by, or all
+            # but one of them (whichever is visited first) would be left out of the hash.
+            name += "@" + symbol
         super().__init__(
-            key="Function;{};{}".format(
-                parent_symbol, obj.__module__ + ":" + obj.__qualname__
-            ),
+            key="Function;{};{}".format(parent_symbol, name),
             parent_symbol=parent_symbol,
             symbol=symbol,
             first_level=first_level,
         )
+        self.name = name
         self.src_fn = obj
         self.resolver = resolver
 
@@ -921,7 +927,7 @@ class NonMementoFunctionHashRule(HashRule):
 
         for dep in list_dotted_names(src_fn):
             # noinspection PyUnresolvedReferences
-            symbol_parent = src_fn.__module__ + ":" + src_fn.__qualname__
+            symbol_parent = self.name
             HashRule._visit_dependency(
                 result=result,
                 src_fn=src_fn,
